@@ -21,7 +21,7 @@ class Contract:
 
     def __init__(self, name, target, state, requires=(), refines=None, view=None, ensures=(),
                  raises=(), policy=None, loops=None, props=(), call_kwargs=None, note="",
-                 max_paths=4000, timeout_ms=None, ref_args=None):
+                 max_paths=4000, timeout_ms=None, ref_args=None, ghost=(), setup=()):
         self.name = name
         self.target = target
         self.state = state
@@ -38,6 +38,8 @@ class Contract:
         self.max_paths = max_paths
         self.timeout_ms = timeout_ms
         self.ref_args = ref_args
+        self.setup = list(setup)   # spec functions run on the fresh state before `requires` (pre-state by construction)
+        self.ghost = list(ghost)   # state entries that are specification-only (not passed to the target)
 
 
 class Lemma:
